@@ -184,6 +184,12 @@ func vhDefNonASCIINames() Rules {
 	return Rules{"Root": {{"étiquette", `a`, nil}, {"词", `b`, nil}, {"Éa", `c`, nil}, {"пробел", `d`, nil}, {"Z", `e`, nil}}}
 }
 
+// literal U+FFFD: regexp reads an invalid input byte as U+FFFD (width 1), so
+// these literals match invalid bytes as well as the encoded character
+func vhDefReplacementLit() Rules {
+	return Rules{"Root": {{"Two", `a\x{FFFD}`, nil}, {"Repl", `\x{FFFD}`, nil}, {"Other", `(?s).`, nil}}}
+}
+
 func vhDefBackref() Rules { // heredoc-style back-reference
 	return Rules{
 		"Root": {{"Start", `<([a-c])`, Push("H")}, {"Ident", `[a-c]`, nil}},
